@@ -99,6 +99,11 @@ theorem viaBase_escapes :
 theorem unquote_quote (s : Bool) (bs : List UInt8) : unquote (quote s bs) = bs :=
   unquote_quote' s bs
 
+/-- Quoting is injective: two different names never collide in a quoted request path or link. -/
+theorem quote_injective (s : Bool) (a b : List UInt8) (h : quote s a = quote s b) : a = b := by
+  have := congrArg unquote h
+  rwa [unquote_quote, unquote_quote] at this
+
 /-- Text inserted into a URL placeholder cannot add query or fragment structure, and with
 `safe=""` (`%q`) no path structure either. -/
 theorem quote_no_structure (s : Bool) (bs : List UInt8) :
